@@ -200,6 +200,30 @@ CallerLoop(form, place) ==
        [] form = "nested" -> <<For3(Def1("o", NatLit(0)), CmpE("<", Var("o"), NatLit(2)), Inc("o"), <<For3(Def1("i", NatLit(0)), cond, post, body), PrintS(<<StrL("o"), Var("o")>>)>>)>>
 LoopCallCases == {CaseOf("C02/loopcall/" \o cf \o "-" \o pl \o "/" \o ff \o (IF dp THEN "-deeper" ELSE ""), <<CalleeDefL(ff, dp)>> \o CallerLoop(cf, pl) \o <<L("end")>>)
                   : cf \in {"for3", "forcond", "range", "nested"}, pl \in {"body", "cond", "post"}, ff \in {"for3", "forcond", "forinf", "range", "earlyret", "none"}, dp \in {TRUE, FALSE}}
-All == LoopCallCases \cup RoleCases \cup ArityCases \cup GlobalCases \cup SwapCases \cup NestCases \cup MultiCallCases
+
+\* (h) every position of a multi-value return x how the value is produced: a parameter expression ("v"), a bare call ("c"), a call inside an
+\*     expression ("e"), a call whose argument is a call ("n"); direct or forwarded through one more function by `return r(n)`.  Whatever a
+\*     back-end uses to carry results (registers, helper copies) must survive the calls made for the later positions.
+RetKinds == {"v", "c", "e", "n"}
+RCallee(i) == Func("g" \o ToString(i), <<Param("n", "int")>>, <<"int">>, <<PrintS(<<StrL("g" \o ToString(i)), Var("n")>>), RetS(<<Bin("+", Bin("*", Var("n"), NatLit(i + 1)), NatLit(i))>>)>>)
+RVal(kd, i) == CASE kd = "v" -> Bin("+", Var("n"), NatLit(i))
+                 [] kd = "c" -> CallE("g" \o ToString(i), <<Var("n")>>)
+                 [] kd = "e" -> Bin("+", CallE("g" \o ToString(i), <<Var("n")>>), NatLit(0))
+                 [] kd = "n" -> CallE("g" \o ToString(i), <<CallE("g" \o ToString(i), <<Var("n")>>)>>)
+RECURSIVE KStr(_, _)
+KStr(ks, i) == IF i > Len(ks) THEN "" ELSE ks[i] \o KStr(ks, i + 1)
+RetFormProg(ks, via, form) ==
+  LET k == Len(ks)
+      ints == [i \in 1..k |-> "int"]
+      names == [i \in 1..k |-> TName(i)]
+      top == IF via THEN "outer" ELSE "r"
+  IN [i \in 1..k |-> RCallee(i)]
+     \o <<Func("r", <<Param("n", "int")>>, ints, <<RetS([i \in 1..k |-> RVal(ks[i], i)])>>)>>
+     \o (IF via THEN <<Func("outer", <<Param("n", "int")>>, ints, <<RetS(<<CallE("r", <<Bin("+", Var("n"), NatLit(1))>>)>>)>>)>> ELSE <<>>)
+     \o (IF form = "asg" THEN <<VarDef(names, "int", <<>>), Asg(names, <<CallE(top, <<NatLit(5)>>)>>)>> ELSE <<Def(names, <<CallE(top, <<NatLit(5)>>)>>)>>)
+     \o <<PrintS([i \in 1..k |-> Var(TName(i))])>>
+RetFormCases == {CaseOf("C02/retform/" \o KStr(ks, 1) \o (IF via THEN "/via/" ELSE "/direct/") \o form, RetFormProg(ks, via, form))
+                 : ks \in ([1..2 -> RetKinds] \cup [1..3 -> RetKinds]), via \in BOOLEAN, form \in {"def", "asg"}}
+All == RetFormCases \cup LoopCallCases \cup RoleCases \cup ArityCases \cup GlobalCases \cup SwapCases \cup NestCases \cup MultiCallCases
 ASSUME ndJsonSerialize("fam.ndjson", SetToSeq(All))
 =============================================================================
